@@ -801,6 +801,21 @@ fn seg_case(c: &SegCase, obs: &mut Obs) -> CaseResult {
             ensure_eq!(after & stable, (before ^ (1 << 21)) & stable, "rflags::write toggling ID: stable bits after (before={:#x})", before);
             ensure_eq!(restored & stable, before & stable, "rflags restored");
             ensure!(after & 2 != 0, "reserved bit 1 of RFLAGS preserved");
+            // update = read-modify-write: toggle ID through the closure, then toggle it back
+            let mut seen = 0u64;
+            unsafe {
+                rflags::update(|f| {
+                    seen = f.bits();
+                    f.toggle(RFlags::ID);
+                    f.remove(RFlags::CARRY_FLAG | RFlags::PARITY_FLAG | RFlags::AUXILIARY_CARRY_FLAG | RFlags::ZERO_FLAG | RFlags::SIGN_FLAG | RFlags::OVERFLOW_FLAG);
+                })
+            };
+            let after_update = rflags::read_raw();
+            unsafe { rflags::update(|f| f.toggle(RFlags::ID)) };
+            let back = rflags::read_raw();
+            ensure_eq!(seen & stable & RFLAGS_MODELLED, before & stable & RFLAGS_MODELLED, "rflags::update closure argument (stable modelled bits; the typed view drops reserved bit 1)");
+            ensure_eq!(after_update & stable, (before ^ (1 << 21)) & stable, "rflags::update toggling ID");
+            ensure_eq!(back & stable, before & stable, "rflags::update toggling ID back");
         }
     }
     ensure!(cpu().unexpected == 0, "unexpected fault");
